@@ -30,6 +30,7 @@ type Engine struct {
 	specFuncs map[string]*SpecFunc
 	axioms    []*AxiomSpec
 	nullable  map[string]bool // nullable external fields
+	ghostFields map[string]string
 	libFiles  []string
 	notes     map[string]bool
 	repoDir   string
@@ -53,7 +54,7 @@ func loadEngine(repoDir string, libDir string) (*Engine, error) {
 	}
 	e := &Engine{
 		pkgs: map[string]*packages.Package{}, funcs: map[string]*FuncInfo{}, contracts: map[string]*Contract{},
-		specFuncs: map[string]*SpecFunc{}, nullable: map[string]bool{}, notes: map[string]bool{}, repoDir: repoDir,
+		specFuncs: map[string]*SpecFunc{}, nullable: map[string]bool{}, ghostFields: map[string]string{}, notes: map[string]bool{}, repoDir: repoDir,
 	}
 	var errs []string
 	packages.Visit(pkgs, nil, func(p *packages.Package) {
@@ -164,6 +165,9 @@ func (e *Engine) addSpecFile(sf *SpecFile) error {
 	e.axioms = append(e.axioms, sf.Axioms...)
 	for k := range sf.Nullable {
 		e.nullable[k] = true
+	}
+	for k, v := range sf.GhostFields {
+		e.ghostFields[k] = v
 	}
 	return nil
 }
